@@ -3,7 +3,7 @@
  "name": "scan_revoke_records",
  "props": ["C03"],
  "level": "U",
- "tier": "wip",
+ "tier": "quick",
  "harness": "h_scan_revoke",
  "enforce": ["scan_revoke_records"],
  "replace": ["jbd2_journal_set_revoke"],
@@ -22,7 +22,7 @@
  "name": "scan_revoke_records_debugfs",
  "props": ["C03"],
  "level": "U",
- "tier": "wip",
+ "tier": "quick",
  "harness": "h_scan_revoke",
  "enforce": ["scan_revoke_records"],
  "replace": ["jbd2_journal_set_revoke"],
